@@ -128,6 +128,14 @@ def run(ctx):
                             continue
                         if any(t[0] == 'app' and t[1] in ('Mac', 'identity_elem') for t in (x, y)):
                             continue
+                        # classification of an error value against a constant of the crate's error enums (`err == ProtocolError::X`): one side is
+                        # a closed constant, the other the Err payload of a failed step - it only selects which error is reported
+                        def closed(t):
+                            return not subterms(t, lambda u: u[0] in ('sym', 'app', 'unk', 'fld', 'as', 'discr'))
+                        def err_payload(t):
+                            return bool(subterms(t, lambda u: u[0] == 'as' and u[2] == 'Err'))
+                        if (closed(x) and x[0] == 'adt' and err_payload(y)) or (closed(y) and y[0] == 'adt' and err_payload(x)):
+                            continue
                         other = y if x == ev else (x if y == ev else None)
                         if ev is not None and other is not None and other[0] == 'fld' and is_whole_field_of(other, Sym('self')):
                             continue
